@@ -560,6 +560,9 @@ def sk_planning(V, goal_kind):
     if goal_kind == "lanelets":
         kw["position"] = ShapeGroup([net.find_lanelet_by_id(1).polygon, net.find_lanelet_by_id(2).polygon])
         lanelets = {0: [1, 2]}
+    elif goal_kind == "group":
+        # (a goal position may list several shapes of one kind only)
+        kw["position"] = ShapeGroup([mk_shape(V, "rectangle", "goal0"), mk_shape(V, "rectangle", "goal1")])
     elif goal_kind != "none":
         kw["position"] = mk_shape(V, goal_kind, "goal")
     if goal_kind in ("rectangle", "none"):
@@ -599,8 +602,8 @@ def sk_planning(V, goal_kind):
 def sk_header(V):
     dt = real(V, "dt", 1e-6, 10.0)
     sc = Scenario(dt, ScenarioID.from_benchmark_id("DEU_Muc-1_2_T-1", "2020a"))
-    geo = GeoTransformation("+proj=utm +zone=32", real(V, "geo_x"), real(V, "geo_y"), real(V, "geo_rot", -3, 3), real(V, "geo_scale", 1e-3, 100))
-    env = Environment(Time(13, 45), TimeOfDay.NOON, Weather.LIGHT_RAIN, Underground.WET)
+    geo = GeoTransformation("+proj=utm +zone=32", real(V, "geo_x"), real(V, "geo_y"), real(V, "geo_rot", -3, 3), real(V, "geo_scale", 1e-9, 100))
+    env = Environment(Time(13, 45), TimeOfDay.NIGHT, Weather.LIGHT_RAIN, Underground.WET)
     loc = Location(V.int("geo_name_id", 1, 10 ** 7), real(V, "lat", -90, 90), real(V, "lon", -180, 180), geo, env)
     sc.add_objects(fx.straight_lanelet(1, lanelet_type={LaneletType.URBAN}))
 
@@ -620,7 +623,7 @@ def sk_header(V):
             for a in ("x_translation", "y_translation", "z_rotation", "scaling"):
                 c.real("geo " + a, getattr(g2, a), getattr(geo, a))
             e2 = l2.environment
-            c.add("environment", e2.time_of_day is TimeOfDay.NOON and e2.weather is Weather.LIGHT_RAIN and e2.underground is Underground.WET and
+            c.add("environment", e2.time_of_day is TimeOfDay.NIGHT and e2.weather is Weather.LIGHT_RAIN and e2.underground is Underground.WET and
                   e2.time.hours == 13 and e2.time.minutes == 45)
         c.prove("header, location and environment read back")
 
